@@ -46,6 +46,8 @@ def gen_cases(seed, count):
         tool = ("skinny-ctr", "skinny-tweak", "skinny-ecb")[i % 3]
         bb = (8, 16)[(i // 3) % 2]
         n = lens[(i // 6) % len(lens)] if i < 6 * len(lens) * 2 else rng.randrange(0, 65536 if rng.random() < 0.1 else 5000)
+        if i % 35 in (29, 33):        # files larger than any stdio / tool buffer: 1 MiB exactly, just above, several MiB
+            n = [1048576, 1048577, 1048576 + 4100 + rng.randrange(4096), 3 * 1048576 + 77, 2 * 1048576 + rng.randrange(100000)][(i // 35) % 5]
         maxk = 2 * bb if tool == "skinny-tweak" else 3 * bb
         klen = rng.choice([bb, 2 * bb, maxk]) if rng.random() < 0.6 else rng.randrange(bb, maxk + 1)
         key = bytes(rng.getrandbits(8) for _ in range(klen))
@@ -130,7 +132,7 @@ def run(out):
             rng = random.Random(c["seed"])
             pfx = os.path.join(wd, "c20-%s-%d" % (vname.replace("+", "_"), i))
             inp, outp, exp, expm, back = pfx + ".in", pfx + ".out", pfx + ".exp", pfx + ".expm", pfx + ".back"
-            data = bytes(rng.getrandbits(8) for _ in range(c["len"])) if rng.random() < 0.9 else bytes(c["len"])
+            data = rng.randbytes(c["len"]) if rng.random() < 0.9 else bytes(c["len"])
             with open(inp, "wb") as f:
                 f.write(data)
             groups = [["-b", str(c["bb"] * 8)], ["-k", c["khex"]]]
@@ -141,6 +143,21 @@ def run(out):
             if c["dec"]:
                 groups.append(["-d"])
             rng.shuffle(groups)                          # options may come in any order
+            dup = None
+            if rng.random() < 0.2:
+                # an option given twice: getopt-style tools let the last one win (or may refuse the command line);
+                # a decoy value is inserted somewhere before the real one
+                j = rng.randrange(len(groups)); g = groups[j]
+                if g[0] == "-k":
+                    dk = rng.randbytes(rng.choice([len(c["key"]), (2 if c["tool"] == "skinny-tweak" else 3) * c["bb"], c["bb"]]))
+                    decoy = ["-k", dk.hex()]
+                elif g[0] in ("-c", "-t"):
+                    decoy = [g[0], rng.randbytes(rng.randrange(1, c["bb"] + 1)).hex()]
+                elif g[0] == "-b":
+                    decoy = ["-b", rng.choice(["64", "128"])]
+                else:
+                    decoy = ["-d"]
+                groups.insert(rng.randrange(j + 1), decoy); dup = decoy[0]
             args = [a for g in groups for a in g]
             res = []
             desc = {"tool": c["tool"], "variant": vname, "block": c["bb"] * 8, "file_length": c["len"], "key_len": len(c["key"]), "key": c["khex"],
@@ -156,7 +173,12 @@ def run(out):
                 got = open(outp, "rb").read() if os.path.exists(outp) else None
                 want, wantm = open(exp, "rb").read(), open(expm, "rb").read()
                 wantlen = c["len"] if mode == "ctr" else c["len"] // c["bb"] * c["bb"]
-                if p.returncode != 0:
+                if dup:
+                    desc["option_given_twice"] = dup; desc["argv"] = args
+                    res.append(("note:dup", "", desc))
+                if dup and p.returncode != 0 and got is None:
+                    res.append(("note:duplicate-refused", "", desc))      # refusing a repeated option is acceptable
+                elif p.returncode != 0:
                     res.append(("%s:valid-invocation-exit-%d" % (c["tool"], p.returncode), p.stderr.decode("utf-8", "replace")[-400:], desc))
                 elif got is None:
                     res.append(("%s:no-output-file" % c["tool"], "", desc))
@@ -191,6 +213,8 @@ def run(out):
             out.counters["invocations_" + c["tool"]] = out.counters.get("invocations_" + c["tool"], 0) + 1
             if c["len"] % c["bb"]:
                 out.counters["files_with_trailing_partial_block"] = out.counters.get("files_with_trailing_partial_block", 0) + 1
+            if c["len"] >= 1048576:
+                out.counters["files_of_1MiB_or_more"] = out.counters.get("files_of_1MiB_or_more", 0) + 1
             if c["len"] > 1024:
                 out.counters["files_longer_than_one_io_chunk"] = out.counters.get("files_longer_than_one_io_chunk", 0) + 1
             if len(out.samples) < 4 and i % 7 == 3:
@@ -198,6 +222,10 @@ def run(out):
             for key, msg, desc in res:
                 if key == "harness":
                     out.harness_errors.append({"detail": msg, "case": desc})
+                elif key == "note:dup":
+                    out.counters["command_lines_with_a_repeated_option"] = out.counters.get("command_lines_with_a_repeated_option", 0) + 1
+                elif key.startswith("note:"):
+                    out.counters["repeated_option_command_lines_refused_by_tool"] = out.counters.get("repeated_option_command_lines_refused_by_tool", 0) + 1
                 elif key == "inconclusive":
                     out.inconclusive.append({"reason": msg, "case": desc})
                 else:
@@ -255,7 +283,7 @@ def key_length_sweep(out, vname="prod"):
         for bb in (8, 16):
             maxk = 2 * bb if tool == "skinny-tweak" else 3 * bb
             for L in range(1, maxk + 4):
-                for order in (0, 1):
+                for order in (0, 1, 2):
                     jobs.append((tool, bb, L, order, bytes(rng.getrandbits(8) for _ in range(L))))
 
     def one(job):
@@ -263,8 +291,10 @@ def key_length_sweep(out, vname="prod"):
         outp = os.path.join(wd, "c10-tools-%s-%d-%d-%d.out" % (tool, bb, L, order))
         exp = outp + ".exp"
         g = [["-b", str(bb * 8)], ["-k", key.hex()]]
-        if order:
+        if order == 1:
             g.reverse()
+        if order == 2:      # -k given twice (an earlier key of the maximum length): the last one counts, or the tool may refuse the command line
+            g.insert(1, ["-k", bytes((b * 7 + 0x5B) & 0xFF or 1 for b in range(2 * bb if tool == "skinny-tweak" else 3 * bb)).hex()])
         try:
             p = subprocess.run([tools[tool]] + [a for x in g for a in x] + [inp, outp], stdout=subprocess.PIPE, stderr=subprocess.PIPE, env=env, timeout=60)
         except subprocess.TimeoutExpired:
@@ -278,7 +308,9 @@ def key_length_sweep(out, vname="prod"):
             subprocess.run([oracle, mode, str(bb), key.hex(), "-", "enc", inp, exp, "model"], stdout=subprocess.PIPE, stderr=subprocess.PIPE, env=env, timeout=60)
             want = open(exp, "rb").read() if os.path.exists(exp) else None
             got = open(outp, "rb").read() if made else None
-            if p.returncode != 0:
+            if p.returncode != 0 and order == 2 and not made:
+                res = None       # refusing a repeated option is acceptable
+            elif p.returncode != 0:
                 res = "legal-key-length-rejected-by-tool"
             elif got != want:
                 res = "tool-output-differs-from-zero-padded-key-model"
@@ -299,6 +331,6 @@ def key_length_sweep(out, vname="prod"):
         if res == "inconclusive":
             out.inconclusive.append({"reason": "tool timed out", "job": [tool, bb, L, order]})
         elif res:
-            out.violation("C10:%s:block%d:%s:%s" % (tool, bb * 8, "k-before-b" if order else "b-before-k", res),
-                          detail={"tool": tool, "block": bb * 8, "key_length": L, "order": "-k first" if order else "-b first"}, replay={"driver": "c20.key_length_sweep", "seed": out.seed})
+            out.violation("C10:%s:block%d:%s:%s" % (tool, bb * 8, ("b-before-k", "k-before-b", "k-given-twice")[order], res),
+                          detail={"tool": tool, "block": bb * 8, "key_length": L, "order": ("-b first", "-k first", "-b, then -k twice (the last one counts)")[order]}, replay={"driver": "c20.key_length_sweep", "seed": out.seed})
     os.unlink(inp)
